@@ -13,7 +13,10 @@ from sigma.exceptions import (
     SigmaTransformationError,
 )
 from sigma.types import (
+    SigmaBool,
     SigmaExpansion,
+    SigmaNull,
+    SigmaNumber,
     SigmaString,
     SigmaType,
     SigmaFieldReference,
@@ -423,9 +426,14 @@ class ValueTransformation(DetectionItemTransformation):
                         # Unlike FieldMappingTransformation (which may add wildcards to values
                         # making round-tripping incorrect), ValueTransformation operates on the
                         # values directly and the new values serve as the serializable original.
-                        if r.modifiers:
+                        if r.modifiers or not all(
+                            type(v) in (SigmaString, SigmaNumber, SigmaBool, SigmaNull)
+                            for v in r.value
+                        ):
                             # The transformed values are the result of the modifiers; writing
                             # them out under the modifier key would apply the modifiers again.
+                            # Values of other types (e.g. regular expressions) have no plain
+                            # form without a modifier and would be read back as strings.
                             r.disable_conversion_to_plain()
                         else:
                             r.original_value = r.value.copy()
